@@ -70,6 +70,42 @@ class PyStub:
     """marker base class for abstract objects supplied by a rule (their Python methods/attributes are the model of a repository class)"""
 
 
+def _model_defines(v, name):
+    """the attribute comes from the abstract object's own model (its classes or its instance), not from a builtin base (dict, list)"""
+    if name in getattr(v, '__dict__', {}):
+        return True
+    for c in type(v).__mro__:
+        if c.__module__ == 'builtins':
+            continue
+        if name in c.__dict__:
+            return True
+    return False
+
+
+def _repo_method(v, name):
+    rm = getattr(v, 'repo_methods', None)
+    if rm and name in rm and not _model_defines(v, name):
+        return rm
+    return None
+
+
+class _SuperProxy(PyStub):
+    """super(...) inside a repository class interpreted on an abstract object derived from a builtin: the builtin's own methods"""
+
+    def __init__(self, obj):
+        object.__setattr__(self, '_obj', obj)
+
+    def __getattribute__(self, name):
+        if name in ('_obj', '__class__'):
+            return object.__getattribute__(self, name)
+        o = object.__getattribute__(self, '_obj')
+        for c in type(o).__mro__:
+            if c.__module__ == 'builtins' and c is not object and name in dir(c):
+                import functools
+                return functools.partial(getattr(c, name), o)
+        raise AttributeError(name)
+
+
 class Obj:
     """abstract record: a dict of field values and the repo methods (AST) of its class;
     comparisons between records are dispatched to the *repository's* dunder methods,
@@ -88,26 +124,52 @@ class Obj:
         if fn is None:
             raise Unsupported('no method %s' % name)
         params = [a.arg for a in fn.args.args]
-        env = {params[0]: (self.target if isinstance(self, _Bound) else self)}
+        static = any(isinstance(d, ast.Name) and d.id == 'staticmethod' for d in fn.decorator_list)
+        env = {}
+        if not static:
+            if not params:
+                raise TypeError('%s() takes no positional argument (self)' % name)
+            env[params[0]] = (self.target if isinstance(self, _Bound) else self)
         if getattr(self, 'clsname', None):
             env['__cls__'] = self.clsname
-        defaults = fn.args.defaults
-        for i, d in enumerate(defaults):
-            env[params[len(params) - len(defaults) + i]] = ev(d, {}, self.funcs)
-        for p, a in zip(params[1:], args):
-            env[p] = a
-        for k, v in kwargs.items():
-            if k not in params:
-                raise Unsupported('unexpected keyword %s' % k)
-            env[k] = v
-        missing = [p for p in params if p not in env]
-        if missing:
-            raise TypeError('%s() missing arguments %s' % (name, missing))
+        _bind_params(fn, params if static else params[1:], args, kwargs, env, self.funcs, name)
         body = fn.body
         if body and isinstance(body[0], ast.Expr) and isinstance(body[0].value, ast.Constant) and isinstance(body[0].value.value, str):
             body = body[1:]
         kind, val = run_block(body, env, self.funcs)
         return val if kind == 'return' else None
+
+
+def _bind_params(fn, params, args, kwargs, env, funcs, name):
+    """bind actuals to the formals `params` (self already removed) of the FunctionDef fn: defaults, *args, keyword-only, **kwargs"""
+    allp = [a.arg for a in fn.args.args]
+    defaults = fn.args.defaults
+    for i, d in enumerate(defaults):
+        env[allp[len(allp) - len(defaults) + i]] = ev(d, {}, funcs)
+    for p, a in zip(params, args):
+        env[p] = a
+    extra = list(args[len(params):])
+    if fn.args.vararg is not None:
+        env[fn.args.vararg.arg] = tuple(extra)
+    elif extra:
+        raise TypeError('%s() takes %d positional arguments but %d were given' % (name, len(params), len(args)))
+    kwonly = [a.arg for a in fn.args.kwonlyargs]
+    for a, d in zip(fn.args.kwonlyargs, fn.args.kw_defaults):
+        if d is not None:
+            env[a.arg] = ev(d, {}, funcs)
+    rest = {}
+    for k, v in kwargs.items():
+        if k in params or k in kwonly:
+            env[k] = v
+        elif fn.args.kwarg is not None:
+            rest[k] = v
+        else:
+            raise TypeError('%s() got an unexpected keyword argument %r' % (name, k))
+    if fn.args.kwarg is not None:
+        env[fn.args.kwarg.arg] = rest
+    missing = [p for p in list(params) + kwonly if p not in env]
+    if missing:
+        raise TypeError('%s() missing arguments %s' % (name, missing))
 
 
 class _Bound:
@@ -173,6 +235,44 @@ def _obj_compare(t, l, r):
     raise Unsupported('record has no %s' % name)
 
 
+def _args(n, env, funcs):
+    out = []
+    for a_ in n.args:
+        if isinstance(a_, ast.Starred):
+            sv = ev(a_.value, env, funcs)
+            if not isinstance(sv, (list, tuple)):
+                raise Unsupported('starred argument %s' % ast.unparse(a_))
+            out.extend(sv)
+        else:
+            out.append(ev(a_, env, funcs))
+    return out
+
+
+def _obj_binop(t, a, b, n=None, inplace=False):
+    dn = {ast.Add: 'add', ast.Sub: 'sub', ast.Mult: 'mul', ast.Mod: 'mod', ast.Div: 'truediv', ast.FloorDiv: 'floordiv', ast.Pow: 'pow',
+          ast.RShift: 'rshift', ast.LShift: 'lshift'}.get(t)
+    if dn and inplace and isinstance(a, Obj) and '__i%s__' % dn in a.methods:
+        return a.call('__i%s__' % dn, b)
+    if dn and isinstance(a, Obj) and '__%s__' % dn in a.methods:
+        return a.call('__%s__' % dn, b)
+    if dn and isinstance(b, Obj) and '__r%s__' % dn in b.methods:
+        return b.call('__r%s__' % dn, a)
+    raise Unsupported('operator on records: %s' % (ast.unparse(n) if n is not None else dn))
+
+
+def _kw(n, env, funcs):
+    out = {}
+    for k in n.keywords:
+        if k.arg:
+            out[k.arg] = ev(k.value, env, funcs)
+        else:
+            d = ev(k.value, env, funcs)
+            if not isinstance(d, dict):
+                raise Unsupported('** of a non-dict')
+            out.update(d)
+    return out
+
+
 def ev(n, env, funcs=None):
     """evaluate an AST expression over integers standing for ranks"""
     if isinstance(n, ast.Name):
@@ -212,6 +312,8 @@ def ev(n, env, funcs=None):
             raise Unsupported('abstract object has no attribute %s' % n.attr)
         if n.attr == '__name__' and callable(v) and hasattr(v, '__name__'):
             return v.__name__
+        if isinstance(v, (list, dict, set, str, tuple)) and not isinstance(v, Table) and hasattr(v, n.attr) and callable(getattr(v, n.attr)):
+            return getattr(v, n.attr)       # a bound method of a builtin container taken as a value (map(d.__getitem__, keys))
         raise Unsupported('attribute %s' % txt)
     if isinstance(n, ast.Subscript):
         base = ev(n.value, env, funcs)
@@ -220,6 +322,8 @@ def ev(n, env, funcs=None):
             return base.read(idx)
         if isinstance(base, Obj) and '__getitem__' in base.methods:
             return base.call('__getitem__', idx)
+        if isinstance(base, PyStub) and _repo_method(base, '__getitem__') is not None:
+            return Obj.call(_Bound(base, base.repo_methods, getattr(base, 'repo_funcs', funcs)), '__getitem__', idx)
         if isinstance(base, PyStub) and hasattr(base, '__getitem__'):
             return base[idx]
         if isinstance(base, dict) and not isinstance(base, Table):
@@ -251,26 +355,26 @@ def ev(n, env, funcs=None):
             except Unsupported:
                 rv = None
             if isinstance(rv, (list, set, dict, str)) and fname in _CONTAINER_METHODS.get(type(rv).__name__, ()) and not n.keywords:
-                return getattr(rv, fname)(*[ev(a, env, funcs) for a in n.args])
+                return getattr(rv, fname)(*_args(n, env, funcs))
             if isinstance(rv, PyStub):
-                if not hasattr(rv, fname):
+                if _repo_method(rv, fname) is not None or not hasattr(rv, fname):
                     rm = getattr(rv, 'repo_methods', None)
                     if rm and fname in rm:
                         # a method the model does not define: interpret the repository's own method with self = the abstract object
-                        return Obj.call(_Bound(rv, rm, getattr(rv, 'repo_funcs', funcs)), fname, *[ev(a, env, funcs) for a in n.args],
-                                        **{k.arg: ev(k.value, env, funcs) for k in n.keywords if k.arg})
+                        return Obj.call(_Bound(rv, rm, getattr(rv, 'repo_funcs', funcs)), fname, *_args(n, env, funcs),
+                                        **_kw(n, env, funcs))
                     raise Unsupported('abstract object has no method %s' % fname)
-                kw = {k.arg: ev(k.value, env, funcs) for k in n.keywords if k.arg}
-                return getattr(rv, fname)(*[ev(a, env, funcs) for a in n.args], **kw)
+                kw = _kw(n, env, funcs)
+                return getattr(rv, fname)(*_args(n, env, funcs), **kw)
             if isinstance(rv, Obj) and fname not in rv.methods and callable(rv.fields.get(_mangled(fname, env))):
                 # a callable stored in a field (a model function handed to the object)
-                return rv.fields[_mangled(fname, env)](*[ev(a, env, funcs) for a in n.args], **{k.arg: ev(k.value, env, funcs) for k in n.keywords if k.arg})
+                return rv.fields[_mangled(fname, env)](*_args(n, env, funcs), **_kw(n, env, funcs))
             if isinstance(rv, Obj) and fname in rv.methods:
                 rv.depth += 1
                 try:
                     if rv.depth > 6:
                         raise Unsupported('recursion in %s' % fname)
-                    return rv.call(fname, *[ev(a, env, funcs) for a in n.args], **{k.arg: ev(k.value, env, funcs) for k in n.keywords if k.arg})
+                    return rv.call(fname, *_args(n, env, funcs), **_kw(n, env, funcs))
                 finally:
                     rv.depth -= 1
         if isinstance(f, ast.Attribute) and fname == 'append' and len(n.args) == 1:
@@ -308,6 +412,10 @@ def ev(n, env, funcs=None):
             if args[0].lower().lstrip('+') in ('inf', 'infinity'):
                 return float('inf')
             raise Unsupported('float of a string')
+        if isinstance(f, ast.Name) and fname == 'super':
+            if 'self' not in env:
+                raise Unsupported('super() outside a method')
+            return _SuperProxy(env['self'])
         if isinstance(f, ast.Name) and fname == 'set' and len(args) <= 1 and not n.keywords:
             if not args:
                 return set()
@@ -341,6 +449,17 @@ def ev(n, env, funcs=None):
                 return [] if fname == 'list' else ()
             if isinstance(args[0], (list, tuple, range)):
                 return list(args[0]) if fname == 'list' else tuple(args[0])
+        if isinstance(f, ast.Name) and fname in ('map', 'filter') and len(args) >= 2 and (callable(args[0]) or args[0] is None):
+            its = []
+            for it_ in args[1:]:
+                if isinstance(it_, dict) or type(it_).__name__ in ('dict_keys', 'dict_values', 'dict_items'):
+                    it_ = list(it_)
+                if not isinstance(it_, (list, tuple, range, set, str)):
+                    raise Unsupported('%s over %r' % (fname, type(it_).__name__))
+                its.append(list(it_))
+            if fname == 'map':
+                return [args[0](*t_) for t_ in zip(*its)]
+            return [x for x in its[0] if (args[0](x) if args[0] is not None else x)]
         if isinstance(f, ast.Name) and fname == 'zip' and all(isinstance(a_, (list, tuple)) for a_ in args):
             return [tuple(t) for t in zip(*args)]
         if isinstance(f, ast.Name) and fname in ('reversed', 'sorted') and len(args) == 1 and isinstance(args[0], (list, tuple)) and not n.keywords:
@@ -386,7 +505,7 @@ def ev(n, env, funcs=None):
             return '<%s>' % type(args[0]).__name__ if isinstance(args[0], (PyStub, Obj)) else str(args[0])
         if fname in ('int', 'float', 'bool') and len(args) == 1:
             return {'int': int, 'float': float, 'bool': bool}[fname](args[0])
-        kw_ = {k.arg: ev(k.value, env, funcs) for k in n.keywords if k.arg}
+        kw_ = _kw(n, env, funcs)
         if funcs and fname in funcs and fname not in ('__globals__', '__name__', '__resolve__'):
             return funcs[fname](*args, **kw_)
         if funcs and '__resolve__' in funcs:
@@ -468,12 +587,7 @@ def ev(n, env, funcs=None):
         a, b = ev(n.left, env, funcs), ev(n.right, env, funcs)
         t = type(n.op)
         if isinstance(a, Obj) or isinstance(b, Obj):
-            dn = {ast.Add: 'add', ast.Sub: 'sub', ast.Mult: 'mul', ast.Mod: 'mod', ast.Div: 'truediv', ast.FloorDiv: 'floordiv', ast.Pow: 'pow'}.get(t)
-            if dn and isinstance(a, Obj) and '__%s__' % dn in a.methods:
-                return a.call('__%s__' % dn, b)
-            if dn and isinstance(b, Obj) and '__r%s__' % dn in b.methods:
-                return b.call('__r%s__' % dn, a)
-            raise Unsupported('operator on records: %s' % ast.unparse(n))
+            return _obj_binop(t, a, b, n)
         if t is ast.Add:
             return a + b
         if t is ast.Sub:
@@ -621,6 +735,9 @@ def run_block(stmts, env, funcs=None, limit=10000):
             cur = ev(s.target, env, funcs)
             v = ev(s.value, env, funcs)
             t = type(s.op)
+            if isinstance(cur, Obj) or isinstance(v, Obj):
+                _bind(s.target, _obj_binop(t, cur, v, s, inplace=True), env, funcs)
+                continue
             if t not in _AUG:
                 raise Unsupported('augmented assignment %s' % ast.unparse(s))
             _bind(s.target, _AUG[t](cur, v), env, funcs)
@@ -628,6 +745,9 @@ def run_block(stmts, env, funcs=None, limit=10000):
             cur = env[s.target.id]
             v = ev(s.value, env, funcs)
             t = type(s.op)
+            if isinstance(cur, Obj) or isinstance(v, Obj):
+                env[s.target.id] = _obj_binop(t, cur, v, s, inplace=True)
+                continue
             if t not in _AUG:
                 raise Unsupported('augmented assignment %s' % ast.unparse(s))
             if isinstance(cur, list) and t is ast.Add and isinstance(v, (list, tuple)):
@@ -784,6 +904,9 @@ def _bind(t, v, env, funcs=None):
         if isinstance(base, Obj) and '__setitem__' in base.methods:
             base.call('__setitem__', ev(t.slice, env, funcs), v)
             return
+        if isinstance(base, PyStub) and _repo_method(base, '__setitem__') is not None:
+            Obj.call(_Bound(base, base.repo_methods, getattr(base, 'repo_funcs', funcs)), '__setitem__', ev(t.slice, env, funcs), v)
+            return
         if isinstance(base, dict) and not isinstance(base, Table):
             base[ev(t.slice, env, funcs)] = v
             return
@@ -815,15 +938,10 @@ def make_func(fn, funcs=None, self_obj=None):
     def call(*args, **kwargs):
         params = [a.arg for a in fn.args.args]
         env = {}
-        defaults = fn.args.defaults
-        for i, d in enumerate(defaults):
-            env[params[len(params) - len(defaults) + i]] = ev(d, {}, funcs)
         if self_obj is not None and params and params[0] == 'self':
             env['self'] = self_obj
             params = params[1:]
-        for p_, a in zip(params, args):
-            env[p_] = a
-        env.update(kwargs)
+        _bind_params(fn, params, args, kwargs, env, funcs, getattr(fn, 'name', 'function'))
         body = fn.body
         if body and isinstance(body[0], ast.Expr) and isinstance(body[0].value, ast.Constant) and isinstance(body[0].value.value, str):
             body = body[1:]
